@@ -24,6 +24,13 @@ RULES = {
     'C08.f': 'no argument of a client command can carry a line break into the node-to-node stream, where the text after it would '
              'run with administrator rights and could rewrite $$ keys (same rule as C09.e)',
     'C08.e': 'the rp wrapper re-enters the dispatcher with the client it received',
+    'C08.h': 'what a session is told depends on its own permission list only (C09.d, repeated): every list the permission check reads is '
+             'named after the session\'s user — a fallback to another list makes a non-administrator\'s replies a function of $$ keys that '
+             'are not its own',
+    'C08.g': 'a refused command is not replicated (C09.a.reply, repeated): an arm whose replication-table arm emits answers success only '
+             'through its guard, and an Error answer of the guard can not reach a locally built success — the secure-key refusal is an '
+             'Error like any other; answered Ok, the replication table sends the refused command to the other nodes, which run it with '
+             'administrator rights and overwrite the $$ key there',
 }
 
 SENSITIVE = ('map-read', 'map-write', 'map-bulk-read', 'map-bulk-write', 'watch-write')
@@ -136,6 +143,9 @@ def run(ck, m):
     _run(ck, m)
     from props import C09
     C09.framing_rule(ck, m, rule='C08.f')
+    from nl import alias
+    alias.repeat(ck, m, 'C09', ('C09.a.reply',), 'C08.g', floor=12, runner=C09.replies)
+    alias.repeat(ck, m, 'C09', ('C09.d',), 'C08.h', runner=C09.fresh_credentials, key_filter=lambda k: 'permission-list-of-the-session-user' in k)
 
 
 def _run(ck, m):
